@@ -86,13 +86,13 @@ Print Assumptions C18_bool_exact.
 
 Theorem C18_trailing_chars_rejected_int : forall F (conv : string -> convres F) ticks lo hi l val z rest,
   scan_int lo hi val = IVal z rest -> rest <> "" ->
-  set_leaf conv ticks (LInt lo hi) l "" val = (VInt z, Some ENumSuffix).
+  set_leaf conv ticks (LInt lo hi) l "" val = (l, Some ENumSuffix).
 Proof. exact trailing_chars_rejected_int. Qed.
 Print Assumptions C18_trailing_chars_rejected_int.
 
 Theorem C18_trailing_chars_rejected_real : forall F (conv : string -> convres F) ticks l val n x,
   scan_real_len val = Some n -> conv (stake n val) = CVal x -> sdrop n val <> "" ->
-  set_leaf conv ticks LReal l "" val = (VReal x, Some ENumSuffix).
+  set_leaf conv ticks LReal l "" val = (l, Some ENumSuffix).
 Proof. exact trailing_chars_rejected_real. Qed.
 Print Assumptions C18_trailing_chars_rejected_real.
 
@@ -137,64 +137,70 @@ Theorem C18_duration_term : forall F (conv : string -> convres F) ticks fuel p s
   s <> "" -> count_while is_trim s = 0 ->
   scan_real_len s = Some n -> conv (stake n s) = CVal x ->
   unit_of (stake (count_while (fun a => negb (is_unit_stop a)) (sdrop n s)) (sdrop n s)) = Some u ->
-  ticks p u x = Some dz ->
+  ticks p u x = TOk dz ->
   parse_dur conv ticks (S fuel) p s t =
   parse_dur conv ticks fuel p (sdrop (count_while (fun a => negb (is_unit_stop a)) (sdrop n s)) (sdrop n s)) (t + dz)%Z.
 Proof. exact parse_dur_term. Qed.
 Print Assumptions C18_duration_term.
 
-(* (9) "rejected => no half-written structure".
-   FULL statement:  forall ..., set_param conv ticks sch v key val = (v', Some er) -> v' = v.
-   It is REFUTED by the faithful model (three confirmed defects of /repo, replayed by the oracle of lib/vf/props/C18.py):
-   trailing characters after a number, any rejected duration, a rejected vector element.
-   Proved: the statement under the hypotheses that exclude exactly the first two. *)
-Theorem C18_rejected_leaves_unchanged_partial : forall F (conv : string -> convres F) ticks sch v key val v' er,
-  set_param conv ticks sch v key val = (v', Some er) ->
-  er <> ENumSuffix ->
-  (forall p pd, resolve sch key <> Some (p, LDur pd)) ->
-  v' = v.
-Proof. exact rejected_leaves_unchanged_partial. Qed.
-Print Assumptions C18_rejected_leaves_unchanged_partial.
+(* (9) "rejected => no half-written structure": whenever a set_param call throws, the whole nested structure is unchanged *)
+Theorem C18_rejected_leaves_unchanged : forall F (conv : string -> convres F) ticks sch v key val v' er,
+  set_param conv ticks sch v key val = (v', Some er) -> v' = v.
+Proof. exact rejected_leaves_unchanged. Qed.
+Print Assumptions C18_rejected_leaves_unchanged.
 
-Theorem C18_rejected_leaves_unchanged_refuted_number :
-  exists (sch : schema) (v v' : value Z) key val er,
-    set_param convZ ticksZ sch v key val = (v', Some er) /\ v' <> v.
-Proof. exact rejected_number_half_written. Qed.
-Print Assumptions C18_rejected_leaves_unchanged_refuted_number.
+(* for an option list: when option j throws, the structure is exactly what the options before it made of it *)
+Theorem C18_set_params_rejected_unchanged : forall F (conv : string -> convres F) ticks sch prefix opts v used i v' used' j er,
+  set_params conv ticks sch v prefix opts used i = (v', used', Some (j, er)) ->
+  exists k used0, j = i + k /\ k < length opts /\
+    set_params conv ticks sch v prefix (firstn k opts) used i = (v', used0, None) /\ used' = incr_nth j used0.
+Proof. exact set_params_rejected_unchanged. Qed.
+Print Assumptions C18_set_params_rejected_unchanged.
 
-Theorem C18_rejected_leaves_unchanged_refuted_duration :
-  exists (sch : schema) (v v' : value Z) key val er,
-    set_param convZ ticksZ sch v key val = (v', Some er) /\ v' <> v.
-Proof. exact rejected_duration_half_written. Qed.
-Print Assumptions C18_rejected_leaves_unchanged_refuted_duration.
+(* durations: zero-valued terms with a unit are accepted; terms that do not fit the representation are rejected *)
+Theorem C18_zero_not_trimmed : forall s, count_while is_trim (String "0"%char s) = 0.
+Proof. exact zero_not_trimmed. Qed.
+Print Assumptions C18_zero_not_trimmed.
 
-Theorem C18_rejected_vec_half_written_refuted :
-  exists val n xs er, set_vec convZ "" val = (n, xs, Some er) /\ n = 3 /\ xs = [1%Z; 2%Z].
-Proof. exact rejected_vec_half_written. Qed.
-Print Assumptions C18_rejected_vec_half_written_refuted.
+Theorem C18_zero_duration_term_accepted : forall F (conv : string -> convres F) ticks p t x u (units : string),
+  In units ["s"; "ms"; "us"; s_micro; "ns"; "min"; "h"; ""] ->
+  conv "0" = CVal x -> unit_of units = Some u -> ticks p u x = TOk 0%Z ->
+  parse_dur conv ticks (S (S (String.length units))) p (String "0"%char units) t = (t, None).
+Proof. exact zero_duration_term_accepted. Qed.
+Print Assumptions C18_zero_duration_term_accepted.
+
+Theorem C18_out_of_range_duration_rejected : forall F (conv : string -> convres F) ticks fuel p s t n x u,
+  s <> "" -> count_while is_trim s = 0 ->
+  scan_real_len s = Some n -> conv (stake n s) = CVal x ->
+  unit_of (stake (count_while (fun a => negb (is_unit_stop a)) (sdrop n s)) (sdrop n s)) = Some u ->
+  ticks p u x = TRange ->
+  parse_dur conv ticks (S fuel) p s t = (t, Some EDurRange).
+Proof. exact out_of_range_duration_rejected. Qed.
+Print Assumptions C18_out_of_range_duration_rejected.
+
+(* vectors: a sub-key is rejected; a rejected value leaves the vector unchanged *)
+Theorem C18_vec_subkey_rejected : forall F (conv : string -> convres F) (old : list F) key val,
+  key <> "" -> set_vec conv old key val = (old, Some EIndexScalar).
+Proof. exact vec_subkey_rejected. Qed.
+Print Assumptions C18_vec_subkey_rejected.
+
+Theorem C18_vec_rejected_unchanged : forall F (conv : string -> convres F) (old v' : list F) key val er,
+  set_vec conv old key val = (v', Some er) -> v' = old.
+Proof. exact vec_rejected_unchanged. Qed.
+Print Assumptions C18_vec_rejected_unchanged.
 
 (* ------------------------------------------------------------------ finite theorems over the generated tables *)
-(* (10) every field declared in a header has a key — except the confirmed gap; the unrestricted statement is refuted today *)
-Theorem C18_every_field_registered_except_known : forall s fs f,
-  In (s, fs) header_fields -> In f fs -> In f (keys_of s) \/ In (s, f) known_field_gaps.
-Proof. exact every_field_registered_except_known. Qed.
-Print Assumptions C18_every_field_registered_except_known.
+(* (10) every field declared in a header of a registered structure has a key *)
+Theorem C18_every_field_registered : forall s fs f,
+  In (s, fs) header_fields -> In f fs -> In f (keys_of s).
+Proof. exact every_field_registered. Qed.
+Print Assumptions C18_every_field_registered.
 
-Theorem C18_every_field_registered_refuted :
-  ~ (forall s fs f, In (s, fs) header_fields -> In f fs -> In f (keys_of s)).
-Proof. exact every_field_registered_refuted. Qed.
-Print Assumptions C18_every_field_registered_refuted.
-
-(* (11) every enumerator of an enum with an ENUM_TABLE has a name in it — except the confirmed gaps *)
-Theorem C18_every_enumerator_registered_except_known : forall en es e,
-  In (en, es) enum_enumerators -> In e es -> In e (enum_names_of en) \/ In (en, e) known_enum_gaps.
-Proof. exact every_enumerator_registered_except_known. Qed.
-Print Assumptions C18_every_enumerator_registered_except_known.
-
-Theorem C18_every_enumerator_registered_refuted :
-  ~ (forall en es e, In (en, es) enum_enumerators -> In e es -> In e (enum_names_of en)).
-Proof. exact every_enumerator_registered_refuted. Qed.
-Print Assumptions C18_every_enumerator_registered_refuted.
+(* (11) every (non-deprecated) enumerator of an enum with an ENUM_TABLE has a name in it *)
+Theorem C18_every_enumerator_registered : forall en es e,
+  In (en, es) enum_enumerators -> In e es -> In e (enum_names_of en).
+Proof. exact every_enumerator_registered. Qed.
+Print Assumptions C18_every_enumerator_registered.
 
 (* (12) keys unique; each key is bound to the member of the same name, which is declared in the header *)
 Theorem C18_keys_unique : forall s t, In (s, t) table_entries \/ In (s, t) enum_table_entries -> NoDup (map fst t).
@@ -240,6 +246,14 @@ Example C18_nonvacuous_set_params :
   set_params convZ ticksZ ex_sch ex_v "s" ["s.max_iter=7"; "t.max_iter=9"; "s.lbfgs.cbfgs=true"] [0; 0; 0] 0
   = (VNode [VLeaf (VInt 7); VNode [VLeaf (VInt 10); VLeaf (VBool true)]], [1; 0; 1], None).
 Proof. vm_compute. reflexivity. Qed.
+Example C18_nonvacuous_rejected :
+  set_param convZ ticksZ ex_sch ex_v "lbfgs.memory" "7abc" = (ex_v, Some ENumSuffix)
+  /\ set_param convZ ticksZ (SStruct "S" [("max_time", (0, SLeaf (LDur 0)))]) (VNode [VLeaf (VDur 5)]) "max_time" "1h30x"
+     = (VNode [VLeaf (VDur 5)], Some EDurUnits)
+  /\ set_param convZ ticksZ (SStruct "S" [("max_time", (0, SLeaf (LDur 0)))]) (VNode [VLeaf (VDur 5)]) "max_time" "1min0s"
+     = (VNode [VLeaf (VDur 60000000000)], None)
+  /\ set_vec convZ [5%Z] "" "1,2x,3" = ([5%Z], Some ENumSuffix).
+Proof. repeat split; vm_compute; reflexivity. Qed.
 Example C18_nonvacuous_digits : dstr [4; 2] = "42" /\ dval [4; 2] = 42%Z.
 Proof. split; vm_compute; reflexivity. Qed.
 Example C18_nonvacuous_tables : header_fields <> [] /\ schemas <> [] /\ enum_table_entries <> [].
